@@ -529,6 +529,9 @@ func genBias(r *rand.Rand, name string, g *genReq, o genOpts, lb, ub *int) M {
 		if r.Intn(2) == 0 {
 			p["function"] = "const"
 			p["params"] = M{"value": float64(r.Intn(5)) / 8}
+			if r.Intn(4) == 0 {
+				p["params"] = M{"value": float64(r.Intn(9)-4) / 8} // a negative constant is a ratio like any other
+			}
 			if r.Intn(8) == 0 {
 				p["params"] = M{} // value defaults to 0
 			}
